@@ -27,6 +27,13 @@ class Vec(list):
     """1-D numeric array of concrete length whose elements are numbers or int/real Syms (element-wise arithmetic)."""
 
 
+class RepList:
+    """`[x, ...] * n` with a symbolic n."""
+
+    def __init__(self, items, n):
+        self.items, self.n = items, n
+
+
 class SymRange:
     def __init__(self, n):
         self.n = n  # z3 int expr
@@ -57,7 +64,9 @@ class LoopSpec:
     def havoc(self, it, env, tag):
         for name, kind in self.vars.items():
             if callable(kind):
-                env[name] = kind(it, env.get(name), tag)
+                r = kind(it, env, tag)
+                if r is not None and "." not in name:
+                    env[name] = r
             else:
                 env[name] = it.w.fresh(f"{name}@{tag}", kind)
 
@@ -631,6 +640,16 @@ class Interp:
         return out
 
     def binop(self, op, l, r):
+        if hasattr(l, "z_binop"):
+            res = l.z_binop(self, op, r, False)
+            if res is not NotImplemented:
+                return res
+        if hasattr(r, "z_binop"):
+            res = r.z_binop(self, op, l, True)
+            if res is not NotImplemented:
+                return res
+        if isinstance(l, list) and not isinstance(l, Vec) and isinstance(r, Sym) and r.kind == "int" and op is ast.Mult:
+            return RepList(l, r.e)
         if isinstance(l, SymSeq) or isinstance(r, SymSeq):
             if op is ast.Add:
                 nl = l.n if isinstance(l, SymSeq) else len(l)
@@ -748,6 +767,8 @@ class Interp:
         return self.w.uf(_CMPNAME[op], [l, r], "val")
 
     def getitem(self, base, idx):
+        if hasattr(base, "z_getitem"):
+            return base.z_getitem(self, idx)
         if isinstance(base, (list, tuple, str)) and not self.is_sym(idx) and not (isinstance(idx, tuple) and self.is_sym(*idx)):
             try:
                 return base[idx]
@@ -811,6 +832,9 @@ class Interp:
             raise OutsideSubset(f"assignment target {type(tgt).__name__}")
 
     def setitem(self, base_node, base, idx, value, env):
+        if hasattr(base, "z_setitem"):
+            base.z_setitem(self, idx, value)
+            return
         if isinstance(base, list) and not self.is_sym(idx):
             base[idx] = value
             return
